@@ -6,6 +6,7 @@ import (
 	"go/constant"
 	"go/token"
 	"go/types"
+	"sort"
 
 	"golang.org/x/tools/go/cfg"
 	"golang.org/x/tools/go/packages"
@@ -30,6 +31,7 @@ type Graph struct {
 	assignCount map[*types.Var]int
 	assumedFn   func(Fact) bool // set while a query with Assume runs
 	flagIx      map[*types.Var]int
+	nilIx       map[*types.Var]int // tracked locals of type error: the valuation holds the truth of `v != nil`
 
 	switchTag map[ast.Expr]ast.Expr // case expression -> tag expression (nil tag => tagless)
 }
@@ -109,7 +111,7 @@ func (p *Prog) GraphOfLit(l *Lit) *Graph {
 
 func (p *Prog) buildGraph(pk *packages.Package, f *Func, l *Lit, body *ast.BlockStmt) *Graph {
 	info := pk.TypesInfo
-	g := &Graph{P: p, Pkg: pk, Info: info, Fn: f, Lit: l, Body: body, flagIx: map[*types.Var]int{}, switchTag: map[ast.Expr]ast.Expr{}}
+	g := &Graph{P: p, Pkg: pk, Info: info, Fn: f, Lit: l, Body: body, flagIx: map[*types.Var]int{}, nilIx: map[*types.Var]int{}, switchTag: map[ast.Expr]ast.Expr{}}
 	c := cfg.New(body, func(call *ast.CallExpr) bool { return !noReturnCall(info, call) })
 
 	// switch tags
@@ -229,6 +231,7 @@ func InspectNoLit(n ast.Node, fn func(ast.Node) bool) { inspectNoLit(n, fn) }
 func (g *Graph) findFlags() {
 	info := g.Info
 	cand := map[*types.Var]bool{}
+	candNil := map[*types.Var]bool{}
 	bad := map[*types.Var]bool{}
 	note := func(e ast.Expr, here bool) {
 		id, ok := ast.Unparen(e).(*ast.Ident)
@@ -243,14 +246,19 @@ func (g *Graph) findFlags() {
 		if !ok || v.IsField() {
 			return
 		}
-		if b, ok := v.Type().Underlying().(*types.Basic); !ok || b.Kind() != types.Bool {
+		isErr := types.Identical(v.Type(), types.Universe.Lookup("error").Type())
+		if b, ok := v.Type().Underlying().(*types.Basic); (!ok || b.Kind() != types.Bool) && !isErr {
 			return
 		}
 		if v.Pkg() != nil && v.Parent() == v.Pkg().Scope() {
 			return // package-level
 		}
 		if here {
-			cand[v] = true
+			if isErr {
+				candNil[v] = true
+			} else {
+				cand[v] = true
+			}
 		} else {
 			bad[v] = true
 		}
@@ -311,19 +319,100 @@ func (g *Graph) findFlags() {
 			}
 		}
 	}
-	if len(flags) > 10 {
-		flags = flags[:10]
+	if len(flags) > 12 {
+		flags = flags[:12]
 	}
 	g.Flags = flags
 	for i, v := range flags {
 		g.flagIx[v] = i
 	}
+	// error-typed locals: nil-ness tracked in the remaining slots (an inlined helper hands its error over through
+	// such locals: `t = err; break L; ...; if t != nil`)
+	var nils []*types.Var
+	for v := range candNil {
+		if !bad[v] {
+			nils = append(nils, v)
+		}
+	}
+	sort.Slice(nils, func(i, j int) bool { return nils[i].Pos() < nils[j].Pos() })
+	if len(nils) > maxTracked-len(flags) {
+		nils = nils[:maxTracked-len(flags)]
+	}
+	for i, v := range nils {
+		g.nilIx[v] = len(flags) + i
+	}
+}
+
+const maxTracked = 30
+
+// nilVarOf: e is a tracked error-typed local.
+func (g *Graph) nilVarOf(e ast.Expr) (int, bool) {
+	id, ok := ast.Unparen(e).(*ast.Ident)
+	if !ok {
+		return 0, false
+	}
+	var obj types.Object = g.Info.Uses[id]
+	if obj == nil {
+		obj = g.Info.Defs[id]
+	}
+	v, ok := obj.(*types.Var)
+	if !ok {
+		return 0, false
+	}
+	i, ok := g.nilIx[v]
+	return i, ok
+}
+
+func (g *Graph) isNilLit(e ast.Expr) bool {
+	id, ok := ast.Unparen(e).(*ast.Ident)
+	if !ok {
+		return false
+	}
+	_, isNil := g.Info.Uses[id].(*types.Nil)
+	return isNil
+}
+
+// nilTest decomposes `x != nil` / `x == nil` / `nil != x` over a tracked error local: index, and whether the
+// expression states non-nil.
+func (g *Graph) nilTest(e ast.Expr) (int, bool, bool) {
+	b, ok := ast.Unparen(e).(*ast.BinaryExpr)
+	if !ok || (b.Op != token.EQL && b.Op != token.NEQ) {
+		return 0, false, false
+	}
+	x, y := b.X, b.Y
+	if g.isNilLit(x) {
+		x, y = y, x
+	}
+	if !g.isNilLit(y) {
+		return 0, false, false
+	}
+	i, isV := g.nilVarOf(x)
+	if !isV {
+		return 0, false, false
+	}
+	return i, b.Op == token.NEQ, true
+}
+
+// evalNonNil: is the value of e (assigned to a tracked error local) non-nil?
+func (g *Graph) evalNonNil(e ast.Expr, v Val) int {
+	if e == nil || g.isNilLit(e) {
+		return tvF
+	}
+	if i, ok := g.nilVarOf(e); ok {
+		return v.get(i)
+	}
+	if call, ok := ast.Unparen(e).(*ast.CallExpr); ok {
+		if fn, isF := CalleeOf(g.Info, call).(*types.Func); isF && (IsPkgFunc(fn, "fmt", "Errorf") || IsPkgFunc(fn, "errors", "New")) {
+			return tvT
+		}
+	}
+	return tvU
 }
 
 // ---- valuations ----
 
 // Val is a valuation of the tracked flags: 2 bits per flag (0 unknown, 1 true, 2 false).
-type Val uint32
+type Val uint64
 
 func (v Val) get(i int) int        { return int(v>>(2*uint(i))) & 3 }
 func (v Val) set(i int, x int) Val { return (v &^ (3 << (2 * uint(i)))) | Val(x)<<(2*uint(i)) }
@@ -370,6 +459,15 @@ func (g *Graph) eval(e ast.Expr, v Val) int {
 	}
 	if i, ok := g.flagOf(e); ok {
 		return v.get(i)
+	}
+	if i, nonNil, ok := g.nilTest(e); ok {
+		switch r := v.get(i); {
+		case r == tvU:
+		case (r == tvT) == nonNil:
+			return tvT
+		default:
+			return tvF
+		}
 	}
 	switch t := e.(type) {
 	case *ast.UnaryExpr:
@@ -441,6 +539,12 @@ func (g *Graph) assume(e ast.Expr, want bool, v Val) Val {
 		}
 		return v.set(i, tvF)
 	}
+	if i, nonNil, ok := g.nilTest(e); ok {
+		if want == nonNil {
+			return v.set(i, tvT)
+		}
+		return v.set(i, tvF)
+	}
 	switch t := e.(type) {
 	case *ast.UnaryExpr:
 		if t.Op == token.NOT {
@@ -486,10 +590,14 @@ func (g *Graph) assume(e ast.Expr, want bool, v Val) Val {
 
 // transfer applies the effect of executing node n on the valuation.
 func (g *Graph) transfer(n *GNode, v Val) Val {
-	if n.Node == nil || len(g.Flags) == 0 {
+	if n.Node == nil || len(g.Flags)+len(g.nilIx) == 0 {
 		return v
 	}
 	setTo := func(lhs ast.Expr, rhs ast.Expr) {
+		if i, isNilVar := g.nilVarOf(lhs); isNilVar {
+			v = v.set(i, g.evalNonNil(rhs, v))
+			return
+		}
 		i, ok := g.flagOf(lhs)
 		if !ok {
 			return
@@ -511,6 +619,9 @@ func (g *Graph) transfer(n *GNode, v Val) Val {
 				if i, ok := g.flagOf(l); ok {
 					v = v.set(i, tvU)
 				}
+				if i, ok := g.nilVarOf(l); ok {
+					v = v.set(i, tvU)
+				}
 			}
 		}
 	case *ast.ValueSpec:
@@ -520,6 +631,8 @@ func (g *Graph) transfer(n *GNode, v Val) Val {
 			} else if len(t.Values) == 0 {
 				setTo(nm, nil)
 			} else if ix, ok := g.flagOf(nm); ok {
+				v = v.set(ix, tvU)
+			} else if ix, ok := g.nilVarOf(nm); ok {
 				v = v.set(ix, tvU)
 			}
 		}
